@@ -516,7 +516,11 @@ class Replay:
                 self.parent[tkey] = (skey, edge)
                 self.stats["states"] += 1
                 if "clone" in self.checks and self.stats["states"] % self.clone_every == 0:
-                    self.check_clone(obj, tkey, label, skip)
+                    try:
+                        self.check_clone(obj, tkey, label, skip)
+                    except Exception as error:  # noqa: a library call on a copy failed - that is a result, not a harness error
+                        self.report("clone.exception", "a call on a copy of the bandit raised %s: %s"
+                                    % (type(error).__name__, error), tkey, label)
                 if len(self.samples) < 3 and len(self.path(tkey)) >= 3:
                     self.samples.append({"path": self.path(tkey), "state": edge["t"]})
             elif tkey != skey and "confluence" in self.checks and pure and self.pure.get(tkey, False):
@@ -765,7 +769,10 @@ class Replay:
         for labels in b.probe_labels(mab, True):
             for label in labels:
                 if label["op"] == "cold_arms":
-                    out.append(list(mab.cold_arms))
+                    try:
+                        out.append(list(mab.cold_arms))
+                    except Exception as error:  # noqa
+                        out.append("raised " + type(error).__name__)
                     continue
                 if label["op"] == "add_arm" and b.lm[label["arm"]] in mab.arms:
                     continue
